@@ -9,6 +9,7 @@ import (
 	"crypto/ecdsa"
 	"crypto/elliptic"
 	"fmt"
+	"io"
 	"log/slog"
 	"path/filepath"
 	"sync"
@@ -17,6 +18,7 @@ import (
 	"filippo.io/keygen"
 	"filippo.io/mldsa"
 	"filippo.io/sunlight"
+	"golang.org/x/crypto/hkdf"
 	"verif.local/vfref"
 )
 
@@ -35,7 +37,13 @@ var simKeys struct {
 func simKeyPair() (*ecdsa.PrivateKey, *mldsa.PrivateKey, *ecdsa.PrivateKey) {
 	simKeys.once.Do(func() {
 		var err error
-		simKeys.key, err = keygen.ECDSA(elliptic.P256(), []byte("verif log key 0000000000000000000000000000"))
+		// derived exactly as cmd/sunlight and cmd/recompute-cache derive the log key from a 32-byte seed file,
+		// so that the recompute-cache binary can be run against directories written by the simulator
+		ecdsaSecret := make([]byte, 32)
+		if _, err := io.ReadFull(hkdf.New(sha256.New, simSeed(), []byte("sunlight"), []byte("ECDSA P-256 log key")), ecdsaSecret); err != nil {
+			panic("VERIF-INCONCLUSIVE: " + err.Error())
+		}
+		simKeys.key, err = keygen.ECDSA(elliptic.P256(), ecdsaSecret)
 		if err != nil {
 			panic("VERIF-INCONCLUSIVE: " + err.Error())
 		}
@@ -51,6 +59,12 @@ func simKeyPair() (*ecdsa.PrivateKey, *mldsa.PrivateKey, *ecdsa.PrivateKey) {
 		}
 	})
 	return simKeys.key, simKeys.wkey, simKeys.alt
+}
+
+func simSeed() []byte {
+	b := make([]byte, 32)
+	copy(b, "verif simulator log seed 0123456")
+	return b
 }
 
 const simLogName = "verif.example/log2026"
@@ -392,6 +406,10 @@ func (s *simSys) resolve(in *simInst, wt *simWaiter, le *sunlight.LogEntry, err 
 
 // round runs one sequencing round of the instance under a fault plan.
 func (s *simSys) round(in *simInst, faults []simFault) *simRoundResult {
+	return s.roundCtx(context.Background(), in, faults)
+}
+
+func (s *simSys) roundCtx(ctx context.Context, in *simInst, faults []simFault) *simRoundResult {
 	res := &simRoundResult{}
 	p := in.p
 	p.begin("round", faults)
@@ -404,7 +422,7 @@ func (s *simSys) round(in *simInst, faults []simFault) *simRoundResult {
 	var snap simCacheSnap
 	p.onCrash = func() { snap = s.w.cacheSnapshot() }
 	t0 := len(s.w.trace)
-	res.Err = in.l.sequence(context.Background())
+	res.Err = in.l.sequence(ctx)
 	p.onCrash = nil
 	p.pool = nil
 	res.Fired = p.firedFaults()
